@@ -172,30 +172,7 @@ def run(R):
         R.check(bool(cov), "C10.NOTIFY", "%s:swallow" % comp.qualname, R.site(comp, c),
                 "an Exception raised by a subscriber is contained (handler covering Exception, no re-raise)",
                 "an Exception raised by a subscriber propagates out of the completion")
-    # overrides reach the base notification on every exit
-    esc = common.Escape(R, ro)
-    for c in fam:
-        if c is fb or "_computed" not in c.methods:
-            continue
-        m = c.methods["_computed"]
-        cfg = cfg_of(m)
-        base = [n for n, cc in kit.call_sites(m, lambda cc: q.attr_call(cc)[1] == "_computed" and (
-            (q.dotted(q.attr_call(cc)[0]) or "").endswith("FutureBase") or isinstance(q.attr_call(cc)[0], ast.Call)))]
-        p = cfg.find_path([cfg.entry], [cfg.exit], N, cut_nodes=base)
-        R.check(p is None and base, "C10.NOTIFY-OVERRIDE", m.qualname, R.site(m),
-                "%s._computed reaches FutureBase._computed on every normal path" % c.name,
-                "%s._computed can return without notifying the subscribers" % c.name, cfg.fmt_path(p) if p else None)
-        p = kit.at_most_once(m, base, N)
-        R.check(p is None, "C10.NOTIFY-OVERRIDE", m.qualname + ":once", R.site(m),
-                "the base notification runs at most once", "the base notification can run twice")
-        # user code entered before the notification (generator.close()) must not be able to bypass it
-        gf = "self." + ro.generator_field()
-        for n, cc in kit.call_sites(m, lambda cc: q.attr_call(cc)[1] == "close" and q.dotted(q.attr_call(cc)[0]) == gf):
-            e, caps, path = esc.escapes_function(m, n, "BaseException", cut_nodes=base)
-            R.check(not e, "C10.NOTIFY-OVERRIDE", m.qualname + ":close-raises", R.site(m, cc),
-                    "if closing the generator raises, the subscribers are still notified (the notification is in a finally)",
-                    "if closing the task's generator raises (a finally block that raises or yields), the task is computed but its subscribers are never notified",
-                    cfg.fmt_path(path) if path else None)
+    notify_override_rule(R, ro, "C10.NOTIFY-OVERRIDE")
 
     # ---- COMPUTE-ONCE
     for mname in ("value", "error"):
@@ -279,3 +256,34 @@ def run(R):
         okp = all(q.src(cc.args[0]) == p0 for n, cc in kit.call_sites(m, lambda cc: q.call_name(cc) == "self." + setter) if cc.args)
         R.check(okp, "C10.GUARD", "%s:%s:arg" % (m.qualname, setter), R.site(m),
                 "%s passes its argument unchanged to %s" % (mname, setter), "%s does not pass its argument unchanged to %s" % (mname, setter))
+
+
+def notify_override_rule(R, ro, rule):
+    """Every _computed override reaches the base notification on every exit."""
+    fb = ro.FutureBase
+    fam = future_family(R, ro)
+    # overrides reach the base notification on every exit
+    esc = common.Escape(R, ro)
+    for c in fam:
+        if c is fb or "_computed" not in c.methods:
+            continue
+        m = c.methods["_computed"]
+        cfg = cfg_of(m)
+        base = [n for n, cc in kit.call_sites(m, lambda cc: q.attr_call(cc)[1] == "_computed" and (
+            (q.dotted(q.attr_call(cc)[0]) or "").endswith("FutureBase") or isinstance(q.attr_call(cc)[0], ast.Call)))]
+        p = cfg.find_path([cfg.entry], [cfg.exit], N, cut_nodes=base)
+        R.check(p is None and base, rule, m.qualname, R.site(m),
+                "%s._computed reaches FutureBase._computed on every normal path" % c.name,
+                "%s._computed can return without notifying the subscribers" % c.name, cfg.fmt_path(p) if p else None)
+        p = kit.at_most_once(m, base, N)
+        R.check(p is None, rule, m.qualname + ":once", R.site(m),
+                "the base notification runs at most once", "the base notification can run twice")
+        # user code entered before the notification (generator.close()) must not be able to bypass it
+        gf = "self." + ro.generator_field()
+        for n, cc in kit.call_sites(m, lambda cc: q.attr_call(cc)[1] == "close" and q.dotted(q.attr_call(cc)[0]) == gf):
+            e, caps, path = esc.escapes_function(m, n, "BaseException", cut_nodes=base)
+            R.check(not e, rule, m.qualname + ":close-raises", R.site(m, cc),
+                    "if closing the generator raises, the subscribers are still notified (the notification is in a finally)",
+                    "if closing the task's generator raises (a finally block that raises or yields), the task is computed but its subscribers are never notified",
+                    cfg.fmt_path(path) if path else None)
+
